@@ -414,8 +414,24 @@ def run(case):
                         "mode": str(mode), "key": key}})
         if post3:
             continue
+        # ---- the lib decides when the caller does not: ufo2ft's own key first, else the Glyphs
+        # legacy opt-out, else 'on' exactly when public.postscriptNames is present
+        if mode is None:
+            L_ = spec["lib"]
+            use_ = L_.get("com.github.googlei18n.ufo2ft.useProductionNames",
+                          (not L_.get("com.schriftgestaltung.Don't use Production Names"))
+                          and psn is not None)
+            bump("lib_decides_names_%s" % ("on" if use_ else "off"))
+            if not use_ and order_on != order_off:
+                violations.append({"mech": "lib_switch_not_honoured", "detail": {
+                    "lib": {k: v for k, v in L_.items() if "roduction" in k or "lyphNames" in k},
+                    "renamed": [[a, b] for a, b in zip(order_off, order_on) if a != b][:6]}})
+                continue
         # ---- names
-        if mode is True or order_on != order_off:
+        # (keepGlyphNames = false asks for NO names: where the format cannot drop them - CFF 1 -
+        # the compiler keeps the source names, which is not judged)
+        keep_ = spec["lib"].get("com.github.googlei18n.ufo2ft.keepGlyphNames", True)
+        if mode is True or (mode is None and use_ and keep_) or order_on != order_off:
             rules = rule_names(src, psn)
             seen = set()
             for i, (old, new) in enumerate(zip(order_off, order_on)):
